@@ -28,7 +28,17 @@ def run(tier):
     m = run_scenarios(chk, "c14", scs, {"C14"}, "c14")
     # chunk lengths around the fractions of the compressors' scratch buffer, behind a compressor backlog, under ASan
     m2 = run_scenarios(chk, "c14", boundary_scenarios(tier), {"C14"}, "c14b", flavor="asan")
-    chk.distinct = m["execs"] + m2["execs"]
+    # a write system call of an EARLIER output fails once and nobody reports it (swallowed while the stream is finished, or
+    # on an output whose stream state is never looked at): the outputs opened afterwards are still complete streams
+    fsc = []
+    for i, comp in enumerate(["gz", "xz"]):
+        for j, kind in enumerate(["fd", "file"]):
+            fsc.append({"id": 9800 + 2 * i + j, "target": "writer", "comp": comp, "kind": kind,
+                        "chunks": [{"id": 1, "n": 3000, "pat": "text"}, {"id": 2, "n": 900, "pat": "rand", "seed": 4}, {"id": 3, "n": 100000, "pat": "rand", "seed": 6}],
+                        "steps": [{"op": "w", "c": 1}, {"op": "rot"}, {"op": "w", "c": 2}, {"op": "w", "c": 1}, {"op": "rot"}, {"op": "w", "c": 3 if tier == "thorough" else 2}],
+                        "pre": []})
+    m3 = run_scenarios(chk, "c16", fsc, {"C14"}, "c14f")
+    chk.distinct = m["execs"] + m2["execs"] + m3["execs"]
     return chk.finish()
 
 
